@@ -38,6 +38,16 @@ func (vc *VC) specFail(sc *SpecScope, f string, a ...any) {
 	panic(specErr{fmt.Sprintf("%s: %s", sc.where, fmt.Sprintf(f, a...))})
 }
 
+func (vc *VC) evalSpecIntIn(sc *SpecScope, e SExpr) string {
+	vc.specMode++
+	defer func() { vc.specMode-- }()
+	v := vc.evalSpec(sc, e)
+	if v.K != VInt {
+		vc.specFail(sc, "integer expected: %s", e)
+	}
+	return v.Term
+}
+
 func (vc *VC) evalSpecBoolIn(sc *SpecScope, e SExpr) string {
 	vc.specMode++
 	defer func() { vc.specMode-- }()
@@ -75,6 +85,16 @@ func (vc *VC) lookupLocal(sc *SpecScope, name string) *Value {
 	if h := vc.hidden[name]; h != nil {
 		if v := es.env[h]; v != nil {
 			return v
+		}
+	}
+	if name == "self" && vc.fd != nil && vc.fd.Recv != nil {
+		// the receiver, whatever a local of the same name as the receiver shadows
+		for _, f := range vc.fd.Recv.List {
+			for _, id := range f.Names {
+				if obj := vc.pkg.P.TypesInfo.Defs[id]; obj != nil && es.env[obj] != nil {
+					return vc.evalIdentObj(es, obj)
+				}
+			}
 		}
 	}
 	var best types.Object
@@ -793,6 +813,17 @@ func (vc *VC) specCall(sc *SpecScope, x *SCall) *Value {
 					return boolV("false")
 				}
 				return boolV(vc.fresh("fmtHas", "Bool"))
+			case "isBytesOf":
+				// isBytesOf(b, s): the byte slice b holds exactly the bytes of the string s
+				as := args()
+				b, str := as[0], as[1]
+				if b.K != VSlice {
+					vc.specFail(sc, "isBytesOf(b, s): b must be a byte slice")
+				}
+				h := vc.heapGet(sc.cur, elemCompPrefix(under(b.T).(*types.Slice).Elem()), sortAt("Int", 2))
+				iv := fmt.Sprintf("ib!%d", vc.qdepth)
+				body := smtImp(smtAnd(app("<=", "0", iv), app("<", iv, b.Len)), smtEq(sel2(h, b.Arr, offIdx(b.Off, iv)), app("strat", str.Term, iv)))
+				return boolV(smtAnd(smtEq(b.Len, app("strlen", str.Term)), "(forall (("+iv+" Int)) (! "+body+" :pattern ("+app("strat", str.Term, iv)+")))"))
 			case "sqlverb":
 				// sqlverb(q): 1 SELECT, 2 INSERT, 3 UPDATE, 4 DELETE, 5 CREATE, 6 DROP, 7 ALTER, 8 PRAGMA, 0 anything else
 				vc.declareFun("sqlverb", "(Int) Int")
@@ -988,4 +1019,11 @@ func (vc *VC) useAxiomsFor(sc *SpecScope) {
 		vc.addAxiom(t)
 		vc.assumptions["spec axiom: "+ax.Text] = true
 	}
+}
+
+func offIdx(off, i string) string {
+	if off == "0" {
+		return i
+	}
+	return app("+", off, i)
 }
